@@ -3,7 +3,7 @@ from . import pipeline_common as pc
 from ..common import Verdict, run_shards, seed, tier
 
 PROP = "C02"
-N = {"quick": 6000, "thorough": 150000}
+N = {"quick": 15000, "thorough": 200000}
 # renderings where the IR is visible in the annotation (pseudo-types under their own names);
 # pydantic/sqlmodel are run for the Optional/default cross-check only
 FRAMEWORKS = ["base", "dataclasses", "attrs", "base", "dataclasses", "pydantic", "sqlmodel"]
